@@ -26,7 +26,8 @@ CONSTANTS ND,          \* data are 1..ND
           MaxTasks,    \* bound on the number of insertions
           MaxAcc,      \* bound on the number of data parameters of one task
           Modes,       \* subset of {"R", "W", "RW"}
-          WithFlush    \* TRUE: Flush / FlushRun actions enabled (C17)
+          WithFlush,   \* TRUE: Flush / FlushRun actions enabled (C17)
+          DupData      \* TRUE: one datum may be given to several parameters of a task
 VARIABLES prog, status, val, reads, fl, own
 vars == <<prog, status, val, reads, fl, own>>
 
@@ -63,7 +64,8 @@ SeqWrites(p, t) == LET v == SeqVal(p, t - 1) IN [d \in Data |-> IF WrT(p[t], d) 
 MustPrecede(p, u, t) == \E d \in Data : Touches(p[u], d) /\ Touches(p[t], d) /\ (WrT(p[u], d) \/ WrT(p[t], d))
 MayStart(p, st, t) == \A u \in 1..(t - 1) : MustPrecede(p, u, t) => st[u] = "done"
 
-AccLists == UNION {[1..n -> [d : Data, m : Modes]] : n \in 1..MaxAcc}
+AccLists == {a \in UNION {[1..n -> [d : Data, m : Modes]] : n \in 1..MaxAcc} :
+                DupData \/ \A i, j \in 1..Len(a) : i # j => a[i].d # a[j].d}
 
 Init == /\ prog = <<>> /\ status = <<>> /\ reads = <<>>
         /\ val = [d \in Data |-> Init0(d)]
